@@ -75,6 +75,17 @@ CountRelational(ev) ==
   /\ IF \E x, y \in V : x[1] = y[1] /\ x[3] = y[3] /\ x[4] = y[4] /\ x[2] # y[2]
                         /\ OrderQualifies(x[1], T) THEN Bump(7) ELSE TRUE
 
+\* requests outside the specification's string projection (arbitrary bytes, 64 KiB paths): C02's
+\* totality only - no panic, at most one invocation, one of the five outcome kinds
+CheckOpaque(line, ev) ==
+  \A oi \in 1..Len(ev.outs) :
+     LET o == ev.outs[oi] IN
+     /\ Bump(2)
+     /\ IF o.k = "panic" THEN Mis(line, "C02.total", oi, o.vs[1]) ELSE TRUE
+     /\ IF o.k = "panic" \/ OnceOK(o) THEN TRUE ELSE Mis(line, "C02.once", oi, o.vs[1])
+     /\ IF o.k \in {"panic", "route", "redirect"} \/ o.st \in {404, 405, 406, 415} THEN TRUE
+        ELSE Mis(line, "C02.status", oi, o.vs[1])
+
 CheckReq(line, ev) ==
   LET J == {i \in 1..Len(ev.outs) : Judged(ev.outs[i])} IN
   /\ \A oi \in J : CheckOut(line, ev, oi)
@@ -104,7 +115,7 @@ Next ==
   /\ l' = l + 1
   /\ LET ev == Trace[l] IN
      /\ T' = IF ev.e = "table" THEN Prepare(ev.services) ELSE T
-     /\ ev.e = "req" => CheckReq(l, ev)
+     /\ ev.e = "req" => (IF ev.req.opaque THEN CheckOpaque(l, ev) ELSE CheckReq(l, ev))
      /\ ev.e = "probe" => CheckProbe(l, ev)
      /\ TLCSet(1, l)
 Spec == Init /\ [][Next]_vars
